@@ -91,6 +91,7 @@ TFinish ==
      /\ Chk("CellsInRange", Pairs(e.cells) \subseteq Eqs(N) \X Eqs(N))
      /\ Chk("NoCellAssignedTwice", Len(e.cells) = Cardinality(Pairs(e.cells)))
      /\ Chk("OmittedIsZero", \A c \in DOMAIN jac : jac[c] # EmptyPoly => c \in Pairs(e.cells))
+     /\ Chk("JacobianReadsTheSameAbundancesAsTheRhs", ToSet(e.yarr_jac) \subseteq ToSet(e.yarr_fex))
      /\ Chk("MacroNSPECIES", e.nspecies = N.n)
      /\ Chk("MacroNEQUATIONS", e.neq = NEq(N))
      /\ Chk("MacroNREACTIONS", e.nreac = Max2(Len(N.R), 1))
